@@ -137,8 +137,8 @@ func checkC12(c Node) Verdict {
 	if ties {
 		reps = 5 // an order that varies between evaluations shows in the tied rows only
 	}
-	if strings.HasPrefix(c["fam"].(string), "joinnull") {
-		reps = 8 // what NULL keys meet may depend on map iteration order
+	if strings.HasPrefix(c["fam"].(string), "joinnull") || strings.HasPrefix(c["fam"].(string), "joinlimit") {
+		reps = 8 // what NULL keys meet, or what a window keeps, may depend on map iteration order
 	}
 	for _, f := range sig {
 		if f == "qual:async" || f == "qual:spinasync" {
@@ -169,6 +169,9 @@ func checkC12(c Node) Verdict {
 	}
 	if strings.HasPrefix(c["fam"].(string), "joinnull") {
 		cut = true // which rows a NULL / missing key joins is claimed nowhere
+	}
+	if strings.HasPrefix(c["fam"].(string), "joinlimit") {
+		cut = true // which rows of a join a window without ORDER BY keeps is open
 	}
 	if !wantErr && !cut && c["res"].(Node)["t"] != "any" {
 		ok := Equal(any(out.Rows), any(want))
